@@ -43,8 +43,8 @@ ASSUMPTIONS = [
     "leak into this property",
 ]
 BOUNDS = {
-    "quick": dict(models=12, arg_variants="1-3 per model", pool=6, subset_size_max=3, builders="| chain for every subset, .at[..].set chain for every second subset of size >= 2", jit=False),
-    "thorough": dict(models=12, arg_variants="1-3 per model", pool=6, subset_size_max=6, builders="| chain for every subset, .at[..].set chain for every second subset of size >= 2", jit="size<=2 subsets"),
+    "quick": dict(models=12, arg_variants="1-3 per model (switch index array(0), 0; mask flag True, False, array(False))", pool=6, subset_size_max=3, builders="| chain for every subset, .at[..].set chain for every second subset of size >= 2", jit=False),
+    "thorough": dict(models=12, arg_variants="1-3 per model (switch index array(0), 0, array(1); mask flag True, False, array(False))", pool=6, subset_size_max=6, builders="| chain for every subset, .at[..].set chain for every second subset of size >= 2", jit="size<=2 subsets"),
 }
 JOBS = {"quick": 8, "thorough": 12}
 
@@ -200,7 +200,7 @@ def _models():
     )
     M["switch_disjoint"] = dict(
         gf=switch_disjoint,
-        args=[lambda: (jnp.array(0), (), ()), lambda: (jnp.array(1), (), ()), lambda: (0, (), ())],
+        args=[lambda: (jnp.array(0), (), ()), lambda: (0, (), ()), lambda: (jnp.array(1), (), ())],
         T={("x",), ("y",), ("sub", "a"), ("sub", "b")},
         pool=[("x",), ("y",), ("sub", "a"), ("a",), ("z",), (0, "y")],
     )
@@ -488,7 +488,10 @@ def _jit_pass(ctx, name, ai, gf, args, T, pool):
 
 def cases(tier, seed):
     for name in MODEL_NAMES:
-        for ai in range(N_ARGS.get(name, 1)):
+        n_args = N_ARGS.get(name, 1)
+        if tier == "quick" and name == "switch_disjoint":
+            n_args = 2  # array(0) and the concrete index 0; array(1) is added in the thorough tier
+        for ai in range(n_args):
             for half in (0, 1):  # two cases per model: the subsets are dealt out alternately
                 yield Case(f"{name}/args{ai}/h{half}", _run(name, ai, tier, half),
                            dict(model=name, args_variant=ai, subsets="every second subset, offset %d" % half))
